@@ -403,7 +403,8 @@ func ext۰reflect۰Value۰Pointer(fr *frame, args []value) value {
 	case *ssa.Function:
 		return uintptr(unsafe.Pointer(v))
 	case *closure:
-		return uintptr(unsafe.Pointer(v))
+		// as in the gc runtime: the code pointer, shared by every closure made from one literal
+		return uintptr(unsafe.Pointer(v.Fn))
 	default:
 		panic(rtErr(fr, fmt.Sprintf("reflect: call of %s", fmt.Sprintf("reflect.(Value).Pointer(%T)", v))))
 	}
